@@ -155,7 +155,7 @@ theorem getExtLoop_encodeExts (exts : List Ext) (hv : ∀ e ∈ exts, e.Valid) (
 end Flute.Spec
 
 namespace Flute.Lct
-open Flute Flute.Spec
+open Flute Flute.Bytes Flute.Spec
 
 /-- the RFC header a `push_lct_header` call is supposed to produce: the given values, version 1,
     the width flags flute chose, no extension -/
@@ -169,6 +169,88 @@ def parsedOf (f : LctFields) : LctHeader :=
   { len := 4 * f.hdrLen, cci := f.cci, tsi := f.tsi, toi := f.toi, cp := f.cp,
     closeObject := decide (f.b = 1), closeSession := decide (f.a = 1),
     headerExtOffset := 4 * (1 + (f.c + 1) + (f.s + f.o + f.h)) }
+
+theorem pushLctHeader_eq_spec (psi cci tsi toi cp : Nat) (co cs : Bool)
+    (hpsi : psi < 4) (hcp : cp < 256) (hcci : cci < 2^128) (htsi : tsi < 2^48) (htoi : toi < 2^112) :
+    (specOfBuild psi cci tsi toi cp co cs).Valid ∧
+    pushLctHeader psi cci tsi toi cp co cs = (specOfBuild psi cci tsi toi cp co cs).encode := by
+  obtain ⟨hc, hcv⟩ := cOf_spec cci hcci
+  obtain ⟨hs, ho, hh, htv, hov⟩ := soh_spec tsi toi htsi htoi
+  have hb1 : b2n co < 2 := by unfold b2n; split <;> omega
+  have hb2 : b2n cs < 2 := by unfold b2n; split <;> omega
+  have hvalid : (specOfBuild psi cci tsi toi cp co cs).Valid := by
+    unfold specOfBuild
+    rw [widthFlags_eq]
+    refine ⟨rfl, hc, hpsi, hs, ho, hh, hb2, hb1, hcp, ?_, ?_, ?_, ?_, ?_⟩
+    · simp only [LctFields.cciBits]
+      have : 32 * (cOf (nbBytes128 cci 0) + 1) = 8 * ((cOf (nbBytes128 cci 0) + 1) * 4) := by omega
+      rw [this, Nat.pow_mul]; exact hcv
+    · simp only [LctFields.tsiBits]
+      have : 32 * sOf (nbBytes64 tsi 2) + 16 * hOf (nbBytes64 tsi 2) (nbBytes128 toi 2) =
+          8 * (sOf (nbBytes64 tsi 2) * 4 + hOf (nbBytes64 tsi 2) (nbBytes128 toi 2) * 2) := by omega
+      rw [this, Nat.pow_mul]; exact htv
+    · simp only [LctFields.toiBits]
+      have : 32 * oOf (nbBytes128 toi 2) + 16 * hOf (nbBytes64 tsi 2) (nbBytes128 toi 2) =
+          8 * (oOf (nbBytes128 toi 2) * 4 + hOf (nbBytes64 tsi 2) (nbBytes128 toi 2) * 2) := by omega
+      rw [this, Nat.pow_mul]; exact hov
+    · simp only [LctFields.hdrLen, extsWords]; omega
+    · intro e he; simp at he
+  refine ⟨hvalid, ?_⟩
+  rw [pushLctHeader_layout psi cci tsi toi cp co cs hpsi hcp hcci htsi htoi]
+  unfold LctFields.encode
+  rw [LctFields.encode_diagram _ hvalid]
+  simp only [specOfBuild, widthFlags_eq, encodeExts, List.append_nil, LctFields.hdrLen, extsWords]
+  simp only [Nat.one_mul, Nat.zero_mul, Nat.add_zero]
+  have : 2 + oOf (nbBytes128 toi 2) + sOf (nbBytes64 tsi 2) + hOf (nbBytes64 tsi 2) (nbBytes128 toi 2) +
+      cOf (nbBytes128 cci 0) = 1 + (cOf (nbBytes128 cci 0) + 1) +
+      (sOf (nbBytes64 tsi 2) + oOf (nbBytes128 toi 2) + hOf (nbBytes64 tsi 2) (nbBytes128 toi 2)) := by omega
+  rw [this]
+
+theorem parseLctHeader_encode (f : LctFields) (hv : f.Valid) (payload : List Nat) :
+    parseLctHeader (f.encode ++ payload) = .ok (parsedOf f) := by
+  have hv' := hv
+  obtain ⟨h1, hc, hpsi, hs, ho, hh, ha, hb, hcp, hcci, htsi, htoi, hhl, hexts⟩ := hv'
+  unfold LctFields.encode
+  rw [LctFields.encode_diagram f hv, h1]
+  have hle := length_encodeExts f.exts hexts
+  have hcci' : f.cci < 256 ^ ((f.c + 1) * 4) := by
+    have : f.cciBits = 8 * ((f.c + 1) * 4) := by unfold LctFields.cciBits; omega
+    rw [this, Nat.pow_mul] at hcci; exact hcci
+  have htsi' : f.tsi < 256 ^ (f.s * 4 + f.h * 2) := by
+    have : f.tsiBits = 8 * (f.s * 4 + f.h * 2) := by unfold LctFields.tsiBits; omega
+    rw [this, Nat.pow_mul] at htsi; exact htsi
+  have htoi' : f.toi < 256 ^ (f.o * 4 + f.h * 2) := by
+    have : f.toiBits = 8 * (f.o * 4 + f.h * 2) := by unfold LctFields.toiBits; omega
+    rw [this, Nat.pow_mul] at htoi; exact htoi
+  have := parse_layout 1 f.c f.psi f.s f.o f.h 0 f.a f.b f.hdrLen f.cp f.cci f.tsi f.toi (encodeExts f.exts ++ payload)
+    (.inl rfl) hc hpsi hs ho hh (by omega) ha hb hcci' htsi' htoi'
+    (by unfold LctFields.hdrLen; omega)
+    (by simp only [List.length_append, hle]; unfold LctFields.hdrLen; omega)
+  simp only [List.append_assoc] at this ⊢
+  rw [this]
+  unfold parsedOf
+  congr 2
+  · omega
+  · apply decide_eq_decide.mpr; omega
+  · apply decide_eq_decide.mpr; omega
+  · omega
+
+theorem getExt_encode (f : LctFields) (hv : f.Valid) (payload : List Nat) (het : Nat) :
+    getExt (f.encode ++ payload) (parsedOf f) het = .ok ((findExt f.exts het).map Ext.encode) := by
+  have hexts := hv.2.2.2.2.2.2.2.2.2.2.2.2.2
+  have hle := length_encodeExts f.exts hexts
+  unfold getExt LctFields.encode
+  have hfixed : (Spec.encode f.diagram).length = 4 * (1 + (f.c + 1) + (f.s + f.o + f.h)) := by
+    rw [LctFields.encode_diagram f hv]
+    simp only [List.length_append, List.length_cons, List.length_nil, length_beBytes]; omega
+  have hs : slice (Spec.encode f.diagram ++ encodeExts f.exts ++ payload) (parsedOf f).headerExtOffset (parsedOf f).len =
+      .ok (encodeExts f.exts) := by
+    rw [List.append_assoc]
+    apply slice_mid
+    · rw [hfixed]; rfl
+    · rw [hfixed, hle]; unfold parsedOf LctFields.hdrLen; simp only []; omega
+  rw [hs, Out.bind_ok]
+  exact getExtLoop_encodeExts f.exts hexts het _ (Nat.le_refl _)
 
 /-- a header with non-minimal widths (TSI 5 in 48 bits, TOI 7 in 80 bits, CCI in 64 bits), an unknown
     variable-length extension of 64 words (HEL = 64, the first value the 8-bit shift wrapped on before D7 was
